@@ -34,6 +34,7 @@ type multicastProxy struct {
 
 	multicastLock sync.Mutex
 	members       []io.Closer
+	run           *multicastRun // the consumption currently feeding the group
 
 	// 所属的流: the stream this proxy was created for. The path alone does not
 	// identify it once another publisher has taken the path.
@@ -74,9 +75,14 @@ func (proxy *multicastProxy) AddMember(m io.Closer) {
 			}
 		}
 
-		proxy.cid = stream.StartConsume(proxy, media.RTPPacket,
-			"net = rtsp-multicast, "+proxy.multicastIP)
+		// 每次启动使用各自的消费者对象: the stream closes a consumption's consumer when
+		// that consumption's delivery goroutine ends, which can be after the proxy was
+		// stopped and started again for a new member. Only the close of the current
+		// run may stop the proxy.
 		proxy.closed = false
+		proxy.run = &multicastRun{proxy: proxy}
+		proxy.cid = stream.StartConsume(proxy.run, media.RTPPacket,
+			"net = rtsp-multicast, "+proxy.multicastIP)
 
 		proxy.logger.Info("multicast proxy started.")
 	}
@@ -153,11 +159,33 @@ func (proxy *multicastProxy) Close() error {
 	return nil
 }
 
+// multicastRun is the consumer of one start of the proxy.
+type multicastRun struct {
+	proxy *multicastProxy
+}
+
+func (r *multicastRun) Consume(p Pack) {
+	if r.proxy.run == r {
+		r.proxy.Consume(p)
+	}
+}
+
+func (r *multicastRun) Close() error {
+	r.proxy.multicastLock.Lock()
+	defer r.proxy.multicastLock.Unlock()
+
+	if r.proxy.run == r { // 已被新的消费替换的旧消费结束时，不能关闭代理
+		r.proxy.close()
+	}
+	return nil
+}
+
 func (proxy *multicastProxy) close() {
 	if proxy.closed {
 		return
 	}
 	proxy.closed = true
+	proxy.run = nil
 
 	stream := proxy.source()
 	if stream != nil {
